@@ -650,6 +650,9 @@ func (s *symCtx) expr(v ssa.Value, d int) string {
 				}
 				return "[" + strings.Join(es, ", ") + "]"
 			}
+			if es := s.sliceLitElems(a, d); es != nil {
+				return "[" + strings.Join(es, ", ") + "]"
+			}
 		}
 		return s.expr(x.X, d+1) + "[:]"
 	case *ssa.UnOp:
@@ -782,6 +785,10 @@ func singleStore(a *ssa.Alloc) ssa.Value {
 				return nil
 			}
 		case *ssa.UnOp, *ssa.DebugRef:
+		case *ssa.MakeClosure:
+			if closureStoresTo(x, a) {
+				return nil // captured by reference and assigned inside the closure
+			}
 		default:
 			// escapes (call arg, MakeClosure ...): still fine for reading the initial value when stored once
 		}
@@ -1010,4 +1017,86 @@ func (s *symCtx) litFields(a *ssa.Alloc, d int) string {
 	sort.Strings(parts)
 	t := a.Type().(*types.Pointer).Elem()
 	return types.TypeString(t, shortQual) + "{" + strings.Join(parts, ", ") + "}"
+}
+
+// closureStoresTo: does the closure (or a nested one) store into the captured variable v?
+func closureStoresTo(mc *ssa.MakeClosure, v ssa.Value) bool {
+	fn, ok := mc.Fn.(*ssa.Function)
+	if !ok {
+		return true
+	}
+	for i, b := range mc.Bindings {
+		if b != v || i >= len(fn.FreeVars) {
+			continue
+		}
+		fv := fn.FreeVars[i]
+		if fv.Referrers() == nil {
+			continue
+		}
+		for _, r := range *fv.Referrers() {
+			switch x := r.(type) {
+			case *ssa.Store:
+				if x.Addr == ssa.Value(fv) {
+					return true
+				}
+			case *ssa.MakeClosure:
+				if closureStoresTo(x, fv) {
+					return true
+				}
+			case *ssa.FieldAddr, *ssa.IndexAddr:
+				if hasStoreThrough(x.(ssa.Value)) {
+					return true
+				}
+			}
+		}
+	}
+	return false
+}
+
+// sliceLitElems renders the elements of a slice/array literal alloc whose elements are built in place.
+func (s *symCtx) sliceLitElems(a *ssa.Alloc, d int) []string {
+	at, ok := a.Type().(*types.Pointer).Elem().Underlying().(*types.Array)
+	if !ok {
+		return nil
+	}
+	out := make([]string, at.Len())
+	for _, r := range *a.Referrers() {
+		ia, ok := r.(*ssa.IndexAddr)
+		if !ok {
+			continue
+		}
+		k, ok := ia.Index.(*ssa.Const)
+		if !ok {
+			return nil
+		}
+		i := int(k.Int64())
+		if i >= len(out) {
+			return nil
+		}
+		var parts []string
+		for _, rr := range *ia.Referrers() {
+			switch x := rr.(type) {
+			case *ssa.Store:
+				if x.Addr == ssa.Value(ia) {
+					out[i] = s.expr(x.Val, d+1)
+				}
+			case *ssa.FieldAddr:
+				for _, r3 := range *x.Referrers() {
+					if st, ok := r3.(*ssa.Store); ok && st.Addr == ssa.Value(x) {
+						parts = append(parts, fieldName(x.X.Type(), x.Field)+": "+s.expr(st.Val, d+2))
+					}
+				}
+			}
+		}
+		if out[i] == "" && len(parts) > 0 {
+			sort.Strings(parts)
+			out[i] = types.TypeString(at.Elem(), shortQual) + "{" + strings.Join(parts, ", ") + "}"
+		}
+	}
+	for _, e := range out {
+		if e == "" {
+			return nil
+		}
+	}
+	return out
 }
